@@ -174,6 +174,9 @@ def run_worker(cmd, out, timeout, env=None, memlimit_kb=None):
         def pre():  # noqa
             import resource
             resource.setrlimit(resource.RLIMIT_AS, (memlimit_kb * 1024, memlimit_kb * 1024))
+    env = dict(env if env is not None else os.environ)
+    env.setdefault("GOMAXPROCS", "1")  # one worker process per core; avoids GC/scheduler contention
+    env.setdefault("GOGC", "400")
     try:
         r = subprocess.run(full, capture_output=True, text=True, timeout=timeout, env=env, preexec_fn=pre)
     except subprocess.TimeoutExpired as e:
